@@ -253,13 +253,31 @@ def part_c(sh: Shard, files):
                     continue
 
                 async def main():
-                    return await rig.connect()
+                    if not await rig.connect():
+                        return False
+                    # what every client does next: the periodic refresh of the log range (a partial
+                    # request), here against a client copy that was deliberately spoiled first
+                    spa = rig.spa
+                    good = spa.struct.status_block
+                    spa.struct.set_status_block(bytes((x + 1) % 256 for x in good))
+                    okr = await spa.struct.get(spa._protocol, spa._get_status_block_handler_func)
+                    lo, n = spa.log_class.begin, spa.log_class.end
+                    out_refresh["ok"] = bool(okr) and spa.struct.status_block[lo : lo + n] == s.bytes[lo : lo + n]
+                    out_refresh["range"] = (lo, n)
+                    spa.struct.set_status_block(good[:lo] + spa.struct.status_block[lo : lo + n] + good[lo + n :])
+                    return True
+
+                out_refresh = {}
 
                 try:
                     ok = w.run(main())
                 except (ScenarioHang, Watchdog) as e:
                     sh.inconc(f"{type(e).__name__} while serving {base}")
                     continue
+                if ok and out_refresh.get("ok") is False:
+                    sh.violation("C19:c:refresh-not-served-unchanged", f"a client refreshing its log range {out_refresh.get('range')} from the simulator loaded with {base}#{k} does not get the snapshot's bytes", wit)
+                elif ok:
+                    sh.count("snapshot_refreshes_served_unchanged")
                 if not ok or rig.spa.struct.status_block != s.bytes:
                     sh.violation("C19:c:not-served-unchanged", f"a client connecting to the simulator loaded with {base}#{k} ends connected={ok} with block equal={rig.spa is not None and rig.spa.struct.status_block == s.bytes}", wit)
                 else:
